@@ -596,3 +596,37 @@ def prof_faults(rng, n, tier):
     return out
 
 PROFILES["faults"] = prof_faults
+
+def prof_sched(rng, n, tier):
+    """C03: trees with dirty nodes (fresh, or modified after a persist / reload), then MakeRoot under
+    controlled completion orders and failing writes; some share a cache across stores with different prefixes"""
+    out = []
+    for i in range(n):
+        shape = rng.choice(["fresh", "fresh", "modified", "reloaded", "big", "xcache"])
+        h = H("sch%d" % i, rng, cache="big" if shape == "xcache" else rng.choice(["none", "none", "big"]),
+              kind=rng.choice([0, 0, 1, 2, 5]), vt=rng.choice(["int", "raw"]), bfs=[2, 2, 3, 4])
+        t = h.new()
+        if shape == "big":
+            for _ in range(rng.choice([120, 250])):
+                h.ins(t)
+        else:
+            build_tree(h, t, rng.choice([1, 4, 12, 30]))
+        if shape == "modified":
+            h.mkroot(t); mutate(h, t, rng.randint(1, 8))
+        elif shape == "reloaded":
+            t = h.load(h.mkroot(t)); mutate(h, t, rng.randint(1, 8))
+        elif shape == "xcache":
+            # the same contents are first persisted into another store through the shared cache
+            t1 = h.nt; h.nt += 1
+            h.ops.append("new %d 1 %d %s %d" % (t1, h.bf, h.fmt, h.kind)); h.ref[t1] = {}
+            for k, v in sorted(h.ref[t].items(), key=lambda kv: key_sort(kv[0])):
+                h.ins(t1, k, v)
+            h.mkroot(t1)
+        h.opts["from"] = len(h.ops)
+        h.opts["nsched"] = 3 if tier == "quick" else 8
+        h.mkroot(t)
+        h.tags.add(shape)
+        out.append(h)
+    return out
+
+PROFILES["sched"] = prof_sched
